@@ -84,6 +84,14 @@ def gen_lattice(max_bound, two_var_bound):
                                'init': {'A': [10.0 * (i + 1) for i in range(n)], 'B': [0.5 * i for i in range(n)],
                                         'X': [7.0 + i for i in range(n)]},
                                'opts': {'min_iter': 0, 'max_iter': 3, 'tol': 0.5, 'offset': offset, 'failures': 'ignore'}}
+        # long runs: the variable moves for j passes and then stands still (iteration counts beyond the exhaustive bound)
+        for j in (5, 9, 10, 11, 17, 30):
+            script = {f'1:{k + 1}': [['A', ['move', 1.0]]] for k in range(j)}
+            for max_iter in (j - 1, j, j + 1, j + 2, 100):
+                for min_iter in (0, j, j + 1, j + 2, max_iter):
+                    for tol in (0.5, 0.0, 1.0, 2.0):
+                        yield {'nvars': 1, 'n': 3, 't': 1, 'script': script,
+                               'opts': {'min_iter': min_iter, 'max_iter': max_iter, 'tol': tol, 'failures': 'ignore'}}
         # passes that rebind the series (whole-series list assignment inside _evaluate) instead of writing in place
         for max_iter in (1, 2, 3, 4):
             for seq in itertools.product(range(3), repeat=max_iter):
